@@ -308,6 +308,52 @@ def edit(b, g, shape):
 
 
 # ---------------------------------------------------------------------------
+# the file is read into an object that ALREADY HOLDS a geometry (mulgrid.read() on a used
+# object): the result must not depend on what the object held before
+
+def prior(b, M, np_, shape, geo):
+    """shape['reuse']: 'self' - the object that wrote the file reads it back itself
+    (geo.write(f); geo.read(f), the "normalise to file precision" idiom); or a dict describing
+    ANOTHER geometry the reading object holds: topology (rectangular nx x ny, nz layers),
+    convention, atmos, unit, block_order, gdc (gdcx / gdcy set, symbolic), cntype, wells (a well
+    with the name of the first well of the file and one with another name), surfaces,
+    via_file (the object got its previous content from a file: mulgrid('prior.dat')).
+    -> the object that is going to read the file"""
+    r = shape['reuse']
+    if r == 'self': return geo
+    kw = {}
+    if r.get('case') == 'u':
+        from string import ascii_uppercase
+        kw['chars'] = ascii_uppercase
+    nx, ny, nz = r.get('size', (3, 1, 3))
+    h = M.mulgrid().rectangular([7.] * nx, [9.] * ny, [4.] * nz, convention=r.get('convention', 0),
+                                atmos_type=r.get('atmos', 0), origin=r.get('origin', [3., 4., 50.]),
+                                block_order=r.get('block_order'), **kw)
+    h.unit_type = r.get('unit', '')
+    assign(h, 'atmosphere_volume', b.real('p_atmvol', None, None, 'e', 10, 2, 1.0))
+    assign(h, 'atmosphere_connection', b.real('p_atmcon', None, None, 'e', 10, 2, 1.0))
+    assign(h, 'permeability_angle', b.real('p_angle', 0.0, 360.0, 'f', 10, 2, 1.0))
+    if r.get('gdc'):
+        assign(h, 'gdcx', b.real('p_gdcx', 0.0, 1.0, 'f', 10, 2, 1.0))
+        assign(h, 'gdcy', b.real('p_gdcy', 0.0, 1.0, 'f', 10, 2, 1.0))
+    if r.get('cntype') is not None:
+        h.cntype = r['cntype']
+    if r.get('surfaces'):
+        col = h.columnlist[-1]
+        col.surface = float(h.layerlist[1].centre)
+        h.set_column_num_layers(col)
+    for wi in range(r.get('wells', 0)):
+        name = ['  w 1', 'zz  9'][wi]
+        h.add_well(M.well(name, [np_.array([5., 6., 50.]), np_.array([5., 6., 40.]), np_.array([6., 6., 30.])][:2 + wi]))
+    h.setup_block_name_index()
+    h.setup_block_connection_name_index()
+    if r.get('via_file'):
+        h.write('prior.dat')
+        h = M.mulgrid('prior.dat')
+    return h
+
+
+# ---------------------------------------------------------------------------
 # comparison of a written geometry a with the re-read one b_
 
 def compare(cmp, a, b_, exact=False, where='', edited=()):
